@@ -223,11 +223,19 @@ def predict(spec):
 
 
 def quarantine(ctx, spec):
-    """Remove the input classes of open known findings from a generated spec."""
+    """Remove the input classes of open known findings from a generated spec
+    (repeated, because a replacement value can create another excluded class)."""
+    for _ in range(4):
+        if not _quarantine_once(ctx, spec):
+            return
+    raise RuntimeError("quarantine did not converge")
+
+
+def _quarantine_once(ctx, spec):
     pr = predict(spec)
     todo = [c for c in pr["classes"] if c.startswith("_") or not ctx.allowed(c)]
     if not todo:
-        return
+        return False
     for c in todo:
         ctx.note(("quarantined:" if not c.startswith("_") else "excluded:") + c)
     if "round_up_extra_column" in todo:
@@ -268,6 +276,7 @@ def quarantine(ctx, spec):
         spec["bonds"] = [b for b in spec["bonds"] if not drop(b)]
     if "negative_atom_id_with_bonds" in todo:
         spec["read_bonds"] = False
+    return True
 
 
 def carried_pairs(spec):
